@@ -17,14 +17,17 @@ struct Out
 {
     std::vector<a_real> buf;
     size_t n;
+    // guard cells differ from one another: a block move that runs off the end would otherwise copy guard values onto guard values
+    static a_real gv(size_t i) { return (a_real)(GUARD - (double)i); }
     explicit Out(size_t cells) : buf(cells + 2 * PAD, (a_real)GUARD), n(cells)
     {
+        for (size_t i = 0; i < (size_t)PAD; ++i) { buf[i] = gv(i); buf[PAD + n + i] = gv(PAD + i); }
         for (size_t i = 0; i < n; ++i) { buf[PAD + i] = (a_real)(STALE + (double)i); }
     }
     a_real *p() { return buf.data() + PAD; }
     bool guards_ok() const
     {
-        for (int i = 0; i < PAD; ++i) { if (buf[(size_t)i] != (a_real)GUARD || buf[PAD + n + (size_t)i] != (a_real)GUARD) { return false; } }
+        for (int i = 0; i < PAD; ++i) { if (buf[(size_t)i] != gv((size_t)i) || buf[PAD + n + (size_t)i] != gv((size_t)(PAD + i))) { return false; } }
         return true;
     }
 };
